@@ -1,6 +1,7 @@
 """Which worlds decide which property, with how many runs per tier, and what the evidence says."""
 import world_envelope  # noqa: F401
 import world_chain  # noqa: F401
+import world_deleg  # noqa: F401
 
 REAL = ["conda_content_trust/*.py (working tree)", "pyca/cryptography + OpenSSL", "json, codecs, io.TextIOWrapper"]
 ASSUME_CRYPTO = ("ed25519 is unforgeable and a random corruption of a signature, key or header does not yield "
@@ -80,3 +81,29 @@ PLANS["C16"] = {
     "assumptions": [ASSUME_SAMPLE],
     "components": {"real": REAL, "stub": CHAIN_STUB},
 }
+
+
+RULE_DELEG = ("one evaluation = one simulated run of the delegation world: trusted delegating metadata with 1-4 roles whose key "
+              "sets overlap (built by the library's builder or directly, sometimes malformed), untrusted envelopes (delegating "
+              "metadata of matching / mismatching type listing their own keys, or arbitrary payloads), signing events by subsets of "
+              "the key holders in raw or OpenPGP mode, the envelope world's channel faults, verify_delegation calls for delegated, "
+              "undelegated and near-miss role names; non-trivial = at least one fault fired and both outcomes seen")
+DELEG_STUB = ENV_STUB
+
+
+def _deleg_plan(quick, thorough, must=()):
+    return {
+        "level": "exploration",
+        "stages": [{"world": "deleg", "runs": {"quick": quick, "thorough": thorough}}],
+        "rule": RULE_DELEG,
+        "assumptions": [ASSUME_CRYPTO, ASSUME_SAMPLE, "well-formedness of delegating metadata is judged by the library's own checker "
+                        "(C14 is not claimed)", "bounds: <= 8 keys, <= 4 roles per trusted document, <= 3 trusted documents and 3 envelopes per run"],
+        "components": {"real": REAL, "stub": DELEG_STUB},
+        "must_probe": {"all": list(must)},
+    }
+
+
+PLANS["C05"] = _deleg_plan(2000, 150000, ["deleg_unknown", "deleg_sigs", "deleg_none", "deleg_mismatch"])
+PLANS["C06"] = _deleg_plan(2000, 150000, ["deleg_mismatch", "strip_removed_entries"])
+PLANS["C06"]["stages"].append({"world": "envelope", "runs": {"quick": 800, "thorough": 50000}})
+PLANS["C13"]["stages"].append({"world": "deleg", "runs": {"quick": 1200, "thorough": 100000}})
